@@ -73,6 +73,15 @@ F = {
     "long_dmy_12h_sec": (lambda d: "%d %s %s %d:%02d:%02d %s" % (d.day, MN[d.month - 1], y4(d), h12(d), d.minute, d.second, ap(d)), "sec"),
     "long_mdy_24h_min": (lambda d: "%s %d, %s %02d:%02d" % (MN[d.month - 1], d.day, y4(d), d.hour, d.minute), "min"),
 }
+# English month forms with a fraction of a second, 24-hour and 12-hour (fraction + AM/PM is its own path in the parser),
+# RFC form with fraction, ISO date-time with 'T' and a 'Z' / numeric UTC designator
+F["long_mdy_12h_frac3"] = (lambda d: "%s %d, %s %d:%02d:%02d.%s %s" % (MN[d.month - 1], d.day, y4(d), h12(d), d.minute, d.second,
+                                                                      _frac(d, 3), ap(d)), "f3")
+F["abbr_dmy_12h_frac6"] = (lambda d: "%d %s %s %d:%02d:%02d.%s %s" % (d.day, MA[d.month - 1], y4(d), h12(d), d.minute, d.second,
+                                                                     _frac(d, 6), ap(d)), "f6")
+F["long_dmy_24h_frac6"] = (lambda d: "%d %s %s %s.%s" % (d.day, MN[d.month - 1], y4(d), _hms(d), _frac(d, 6)), "f6")
+F["rfc2822_frac3"] = (lambda d: "%s, %02d %s %s %s.%s" % (WN[d.weekday()][:3], d.day, MA[d.month - 1], y4(d), _hms(d), _frac(d, 3)),
+                      "f3")
 for _k in range(1, 7):
     F["iso_dt_space_frac%d" % _k] = ((lambda k: lambda d: "%s %s.%s" % (_date(d), _hms(d), _frac(d, k)))(_k), "f%d" % _k)
     F["iso_dt_T_frac%d" % _k] = ((lambda k: lambda d: "%sT%s.%s" % (_date(d), _hms(d), _frac(d, k)))(_k), "f%d" % _k)
